@@ -144,6 +144,24 @@ def gen_c01(rnd, n, thorough=False):
         lines = ["create f 1 1 %d m 2 x 3f000000" % N, "upd f 0 %d %016x %d" % (t0, fbits(5.0), t0), _many('f', rnd.pick([0, -1]), nw, pts),
                  "fetch f 0 %d %d %d" % (nw - N, nw, nw), "sync f", "open f", "fetch f 0 %d %d %d" % (nw - N, nw, nw)]
         cases.append({'id': 'c01-chunkwrap-%d' % j, 'lines': lines, 'tags': {'layout': 'ring%d' % N, 'levels': 1, 'target': 0, 'ops': {'chunk_wrap': 1}}})
+    # ONE slice of points handed to two batch writes, a coarser archive first, then a finer one (times that are
+    # no multiples of the coarser step): the finer archive holds the points under their own intervals
+    for j in range(4):
+        lname, layout = pick_layout(rnd, ['three', 'four', 'tens', 'ring2', 'short3'], random_share=0.3, levels=rnd.pick([2, 3]), max_points=30)
+        if len(layout) < 2:
+            lname, layout = 'three', list(FIXED_LAYOUTS['three'])
+        k = len(layout)
+        fine = rnd.randrange(k - 1)
+        coarse = rnd.randrange(fine + 1, k)
+        Sf, Nf = layout[fine]
+        now = clock_in_domain(rnd, layout)
+        pts = [(now - rnd.randint(0, Sf * Nf - 1), small_value(rnd)) for _ in range(rnd.randint(2, 6))]
+        lines = [_create('f', layout, rnd.pick(METHODS), rnd.pick(XFF_VALID)),
+                 "manytwice f %d %d %d %d %s" % (coarse, fine, now, len(pts), " ".join("%d %016x" % tv for tv in pts))]
+        for a_ in (fine, coarse):
+            lines.append("fetch f %d %d %d %d" % (a_, now - layout[a_][0] * layout[a_][1], now, now))
+            lines.append("raw f %d" % a_)
+        cases.append({'id': 'c01-twice-%d' % j, 'lines': lines, 'tags': {'layout': lname, 'levels': k, 'target': fine, 'ops': {'one_slice_two_writes': 1}}})
     # two files created from ONE archive list value (as a command creating several destinations does), written
     # one after the other at different ring positions: each file holds its own writes, also for a fresh handle
     for j in range(6):
